@@ -35,6 +35,7 @@ type Config struct {
 	Verbose      bool
 	MaxViolations int
 	TimeBudget   time.Duration
+	ConcreteClock bool // discrete-event time instead of a symbolic clock
 }
 
 // KnownPred is an open known finding: a DNF predicate over nondet/tag names.
@@ -118,7 +119,7 @@ type Engine struct {
 
 	mu      sync.Mutex
 	cond    *sync.Cond
-	work    [][]Decision
+	work    [][][]Decision // per-worker LIFO stacks; idle workers steal the oldest item of the fullest stack
 	busy    int
 	stop    bool
 	res     *Results
@@ -144,6 +145,7 @@ type Worker struct {
 	epoch    int64
 	res      *Results // worker-local counters merged at the end
 	coverSeen map[string]bool
+	lastTrace []Decision
 }
 
 // engine-level control flow (Go panics of these types unwind the interpreter)
@@ -204,7 +206,8 @@ func (e *Engine) Run(fn *ssa.Function) *Results {
 	e.res.Harness = fn.Name()
 	e.res.Params = e.Cfg.Params
 	e.started = time.Now()
-	e.work = [][]Decision{nil}
+	e.work = make([][][]Decision, max(1, e.Cfg.Workers))
+	e.work[0] = [][]Decision{nil}
 	if e.infos == nil {
 		e.infos = make(map[*ssa.Function]*fnInfo)
 	}
@@ -283,16 +286,28 @@ func (w *Worker) loop(fn *ssa.Function) {
 	e := w.eng
 	for {
 		e.mu.Lock()
-		for len(e.work) == 0 && e.busy > 0 && !e.stop {
+		for e.queued() == 0 && e.busy > 0 && !e.stop {
 			e.cond.Wait()
 		}
-		if e.stop || len(e.work) == 0 {
+		if e.stop || e.queued() == 0 {
 			e.cond.Broadcast()
 			e.mu.Unlock()
 			return
 		}
-		prefix := e.work[len(e.work)-1]
-		e.work = e.work[:len(e.work)-1]
+		var prefix []Decision
+		if own := e.work[w.id]; len(own) > 0 {
+			prefix = own[len(own)-1]
+			e.work[w.id] = own[:len(own)-1]
+		} else {
+			best := -1
+			for i, st := range e.work {
+				if len(st) > 0 && (best < 0 || len(st) > len(e.work[best])) {
+					best = i
+				}
+			}
+			prefix = e.work[best][0]
+			e.work[best] = e.work[best][1:]
+		}
 		e.busy++
 		e.res.Paths++
 		np := e.res.Paths
@@ -314,14 +329,22 @@ func (w *Worker) loop(fn *ssa.Function) {
 		e.cond.Broadcast()
 		e.mu.Unlock()
 		if e.Cfg.Verbose && np%5000 == 0 {
-			fmt.Fprintf(os.Stderr, "[symgo] %s: %d paths, %d queued, %.1fs\n", fn.Name(), np, len(e.work), time.Since(e.started).Seconds())
+			fmt.Fprintf(os.Stderr, "[symgo] %s: %d paths, %d queued, %.1fs\n", fn.Name(), np, e.queued(), time.Since(e.started).Seconds())
 		}
 	}
 }
 
-func (e *Engine) pushWork(prefix []Decision) {
+func (e *Engine) queued() int {
+	n := 0
+	for _, st := range e.work {
+		n += len(st)
+	}
+	return n
+}
+
+func (e *Engine) pushWork(wid int, prefix []Decision) {
 	e.mu.Lock()
-	e.work = append(e.work, prefix)
+	e.work[wid] = append(e.work[wid], prefix)
 	e.cond.Signal()
 	e.mu.Unlock()
 }
@@ -332,12 +355,23 @@ func (w *Worker) runPath(fn *ssa.Function, prefix []Decision) {
 	w.epoch++
 	p := &Path{w: w, eng: e, prefix: prefix, ndCount: map[string]int{}, tags: map[string]*Term{},
 		known: map[string]bool{}, concVals: map[string]uint64{}, done: make(chan interface{}, 1), syncSt: map[*Value]*syncState{}, atomVals: map[*Value]Value{}}
-	w.solver.BeginPath()
-	p.clock = p.freshVar("clock", 64)
-	// keep the clock well inside the positive int64 range so that deadline
-	// arithmetic cannot wrap
-	p.assume(Cmp(OpUle, BV(64, 1<<40), p.clock))
-	p.assume(Cmp(OpUle, p.clock, BV(64, 1<<41)))
+	shared := -1
+	if w.lastTrace != nil {
+		shared = 0
+		for shared < len(prefix) && shared < len(w.lastTrace) && sameDecision(prefix[shared], w.lastTrace[shared]) {
+			shared++
+		}
+	}
+	w.solver.BeginPath(shared)
+	if e.Cfg.ConcreteClock {
+		p.clock = BV(64, 1<<40)
+	} else {
+		p.clock = p.freshVar("clock", 64)
+		// keep the clock well inside the positive int64 range so that deadline
+		// arithmetic cannot wrap
+		p.assume(Cmp(OpUle, BV(64, 1<<40), p.clock))
+		p.assume(Cmp(OpUle, p.clock, BV(64, 1<<41)))
+	}
 	main := p.newThread()
 	p.cur = main
 	p.wg.Add(1)
@@ -388,6 +422,12 @@ func (w *Worker) runPath(fn *ssa.Function, prefix []Decision) {
 	}
 	w.undoFns = w.undoFns[:0]
 	w.solver.EndPath()
+	w.lastTrace = p.trace
+	if w.solver.Mismatch {
+		w.solver.Mismatch = false
+		pv = engineBug{val: "replay of a shared prefix asserted different terms (engine nondeterminism)", stack: ""}
+		w.lastTrace = nil
+	}
 	w.res.Steps += p.steps
 	w.res.Blocks += p.blocks
 	w.res.Decisions += int64(len(p.trace))
@@ -428,6 +468,18 @@ func (w *Worker) runPath(fn *ssa.Function, prefix []Decision) {
 	}
 }
 
+func sameDecision(a, b Decision) bool {
+	if a.Kind != b.Kind || a.Val != b.Val || a.Open != b.Open || len(a.Excl) != len(b.Excl) {
+		return false
+	}
+	for i := range a.Excl {
+		if a.Excl[i] != b.Excl[i] {
+			return false
+		}
+	}
+	return true
+}
+
 func trimLog(l []string, n int) []string {
 	if len(l) <= n {
 		return l
@@ -435,6 +487,12 @@ func trimLog(l []string, n int) []string {
 	out := append([]string{}, l[:n/2]...)
 	out = append(out, "…")
 	return append(out, l[len(l)-n/2:]...)
+}
+
+// record starts a new solver level and appends the decision to the trace.
+func (p *Path) record(d Decision) {
+	p.w.solver.Decision()
+	p.trace = append(p.trace, d)
 }
 
 func (p *Path) freshVar(name string, w uint8) *Term {
@@ -486,7 +544,7 @@ func (p *Path) branch1(cond *Term) bool {
 			panic(fmt.Sprintf("replay divergence: expected %c decision, got branch at %d", d.Kind, p.pos))
 		}
 		p.pos++
-		p.trace = append(p.trace, d)
+		p.record(d)
 		if d.Val != 0 {
 			s.Assert(cond)
 			return true
@@ -500,13 +558,13 @@ func (p *Path) branch1(cond *Term) bool {
 	p.pos++
 	rt := s.CheckWith(cond)
 	if rt == Unsat {
-		p.trace = append(p.trace, Decision{Kind: 'b', Val: 0})
+		p.record(Decision{Kind: 'b', Val: 0})
 		s.Assert(Not(cond))
 		return false
 	}
 	rf := s.CheckWith(Not(cond))
 	if rf == Unsat {
-		p.trace = append(p.trace, Decision{Kind: 'b', Val: 1})
+		p.record(Decision{Kind: 'b', Val: 1})
 		s.Assert(cond)
 		return true
 	}
@@ -516,8 +574,8 @@ func (p *Path) branch1(cond *Term) bool {
 	alt := make([]Decision, len(p.trace)+1)
 	copy(alt, p.trace)
 	alt[len(p.trace)] = Decision{Kind: 'b', Val: 0}
-	p.eng.pushWork(alt)
-	p.trace = append(p.trace, Decision{Kind: 'b', Val: 1})
+	p.eng.pushWork(p.w.id, alt)
+	p.record(Decision{Kind: 'b', Val: 1})
 	s.Assert(cond)
 	if th := p.cur; th != nil && th.top != nil {
 		site := th.top.fn.String()
@@ -541,7 +599,7 @@ func (p *Path) choose(n int) int {
 			panic(fmt.Sprintf("replay divergence: expected %c decision, got choice at %d", d.Kind, p.pos))
 		}
 		p.pos++
-		p.trace = append(p.trace, d)
+		p.record(d)
 		return int(d.Val)
 	}
 	if len(p.trace) >= p.eng.Cfg.MaxDecisions {
@@ -552,9 +610,9 @@ func (p *Path) choose(n int) int {
 		alt := make([]Decision, len(p.trace)+1)
 		copy(alt, p.trace)
 		alt[len(p.trace)] = Decision{Kind: 'c', Val: uint64(k)}
-		p.eng.pushWork(alt)
+		p.eng.pushWork(p.w.id, alt)
 	}
-	p.trace = append(p.trace, Decision{Kind: 'c', Val: 0})
+	p.record(Decision{Kind: 'c', Val: 0})
 	return 0
 }
 
@@ -596,7 +654,7 @@ func (p *Path) concretizeN(t *Term, n int) uint64 {
 			panic(fmt.Sprintf("replay divergence: expected closed value decision at %d", p.pos))
 		}
 		p.pos++
-		p.trace = append(p.trace, d)
+		p.record(d)
 		v = d.Val
 	} else {
 		if len(p.trace) >= p.eng.Cfg.MaxDecisions {
@@ -620,10 +678,10 @@ func (p *Path) concretizeN(t *Term, n int) uint64 {
 			alt := make([]Decision, len(p.trace)+1)
 			copy(alt, p.trace)
 			alt[len(p.trace)] = Decision{Kind: 'v', Val: feas[j]}
-			p.eng.pushWork(alt)
+			p.eng.pushWork(p.w.id, alt)
 		}
 		v = feas[0]
-		p.trace = append(p.trace, Decision{Kind: 'v', Val: v})
+		p.record(Decision{Kind: 'v', Val: v})
 	}
 	s.Assert(Eq(t, BV(t.W, v)))
 	if k != "" {
@@ -642,7 +700,7 @@ func (p *Path) concretize1(t *Term) uint64 {
 		}
 		p.pos++
 		if !d.Open {
-			p.trace = append(p.trace, d)
+			p.record(d)
 			s.Assert(Eq(t, BV(t.W, d.Val)))
 			return d.Val
 		}
@@ -673,8 +731,8 @@ func (p *Path) concretize1(t *Term) uint64 {
 	alt := make([]Decision, len(p.trace)+1)
 	copy(alt, p.trace)
 	alt[len(p.trace)] = Decision{Kind: 'v', Open: true, Excl: nexcl}
-	p.eng.pushWork(alt)
-	p.trace = append(p.trace, Decision{Kind: 'v', Val: v})
+	p.eng.pushWork(p.w.id, alt)
+	p.record(Decision{Kind: 'v', Val: v})
 	s.Assert(Eq(t, BV(t.W, v)))
 	return v
 }
